@@ -120,7 +120,7 @@ _RE_COV = re.compile(r"^<(\w+) line \d+, col \d+ to line \d+, col \d+ of module 
 
 def run_mc(name, module, cfg, workers=None, timeout=1500, xmx="10g", simulate=None, coverage=True, required_actions=None, keep_output=False):
     """Exhaustive (or -simulate) TLC run of a scaled model.  Any failure is a ToolError."""
-    md = fresh_dir("tlc/mc_" + name)
+    md = fresh_dir("tlc/mc_%s_%d" % (name, os.getpid()))        # per process: checks may run side by side
     cmd = ["tlc", "-workers", str(workers or MC_WORKERS), "-metadir", md, "-cleanup", "-noGenerateSpecTE"]
     if coverage and not simulate and (required_actions or os.environ.get("VERIF_COVERAGE")):
         cmd += ["-coverage", "1"]
